@@ -153,7 +153,16 @@ func c18ParseOp(t string) sopT {
 }
 
 func c18Replay(c *hx.Ctx) {
+	constructedDone := false
 	for _, line := range hx.ReadLines(c.Replay) {
+		if !constructedDone && (strings.HasPrefix(line, "direct store_map constructed") || strings.HasPrefix(line, "direct counter_window reset")) {
+			// regenerated from the same seed: only the first random draws matter, consume what runC18 consumes before it
+			for i := 0; i < 16; i++ {
+				c.Rng.Intn(65536)
+			}
+			c18Constructed(c)
+			constructedDone = true
+		}
 		f := strings.Fields(line)
 		if len(f) == 0 {
 			continue
@@ -215,6 +224,94 @@ func c18SessionWindow(c *hx.Ctx, w, k int) {
 	}
 }
 
+// c18Constructed: a store built by NewPacketStoreWithPackets (and a session holding such stores) answers exactly like a
+// store filled by saving the same packets one by one (the path that is compared with the model): packets without an id
+// are ignored, a later packet replaces an earlier one with the same id, nothing else appears.
+func c18Constructed(c *hx.Ctx) {
+	noid := []packet.Generic{packet.NewConnect(), packet.NewConnack(), &packet.Pingreq{}, &packet.Pingresp{}, &packet.Disconnect{}}
+	withid := func(id packet.ID, k int) packet.Generic {
+		switch k % 4 {
+		case 0:
+			return &packet.Publish{ID: id, Message: packet.Message{Topic: "t", Payload: []byte{byte(k)}, QOS: 1}}
+		case 1:
+			return &packet.Pubrel{ID: id}
+		case 2:
+			return &packet.Subscribe{ID: id, Subscriptions: []packet.Subscription{{Topic: "a", QOS: 1}}}
+		}
+		return &packet.Publish{ID: id, Message: packet.Message{Topic: "u", QOS: 0}} // QoS 0: id 0 allowed on the wire
+	}
+	var lists [][]packet.Generic
+	lists = append(lists, nil, []packet.Generic{}, noid, []packet.Generic{noid[0], withid(1, 0), noid[4]}, []packet.Generic{withid(0, 3), noid[0]},
+		[]packet.Generic{noid[2], withid(0, 3)}, []packet.Generic{withid(1, 0), withid(1, 1), withid(2, 2), noid[1], withid(65535, 0)})
+	for i := 0; i < 40; i++ {
+		var l []packet.Generic
+		for j := 0; j < 1+c.Rng.Intn(8); j++ {
+			if c.Rng.Intn(3) == 0 {
+				l = append(l, noid[c.Rng.Intn(len(noid))])
+			} else {
+				l = append(l, withid(packet.ID([]int{0, 1, 2, 3, 65535}[c.Rng.Intn(5)]), c.Rng.Intn(4)))
+			}
+		}
+		lists = append(lists, l)
+	}
+	view := func(st *session.PacketStore) (res string) {
+		defer func() {
+			if x := recover(); x != nil {
+				res = fmt.Sprintf("panic:%v", x)
+			}
+		}()
+		var parts []string
+		for _, id := range []packet.ID{0, 1, 2, 3, 65535} {
+			parts = append(parts, fmt.Sprintf("%d=%s", id, hx.PktText(st.Lookup(id))))
+		}
+		var all []string
+		for _, p := range st.All() {
+			all = append(all, hx.PktText(p))
+		}
+		return strings.Join(parts, " ") + " all=" + strings.Join(all, "/")
+	}
+	bad := 0
+	for i, l := range lists {
+		built := session.NewPacketStoreWithPackets(l)
+		ref := session.NewPacketStore()
+		for _, p := range l {
+			ref.Save(p)
+		}
+		var lt []string
+		for _, p := range l {
+			lt = append(lt, hx.PktText(p))
+		}
+		a, b := view(built), view(ref)
+		// the same through a session whose stores were constructed
+		ms := &session.MemorySession{Counter: session.NewIDCounter(), Incoming: session.NewPacketStoreWithPackets(l), Outgoing: session.NewPacketStoreWithPackets(nil)}
+		lp, _ := ms.LookupPacket(session.Incoming, 0)
+		ap, _ := ms.AllPackets(session.Incoming)
+		sOK := hx.PktText(lp) == hx.PktText(ref.Lookup(0)) && len(ap) == len(ref.All())
+		if a != b || !sOK {
+			bad++
+			c.Emit("direct store_map constructed=%d list=%s FAIL NewPacketStoreWithPackets answers %s ; a store filled by Save answers %s ; session view consistent=%v", i, strings.Join(lt, "/"), strings.ReplaceAll(a, " ", "_"), strings.ReplaceAll(b, " ", "_"), sOK)
+		}
+	}
+	if bad == 0 {
+		c.Emit("direct store_map constructed ok %d packet lists (with and without id-less packets) through NewPacketStoreWithPackets equal the Save path", len(lists))
+	}
+	// a counter constructed with any next value restarts at 1 after Reset
+	for _, n := range []int{0, 1, 2, 255, 256, 65534, 65535, 1 + c.Rng.Intn(65534)} {
+		ctr := session.NewIDCounterWithNext(packet.ID(n))
+		ctr.NextID()
+		ctr.Reset()
+		if id := ctr.NextID(); id != 1 {
+			c.Emit("direct counter_window reset start=%d FAIL first id after Reset is %d, want 1", n, id)
+		}
+		ms := &session.MemorySession{Counter: session.NewIDCounterWithNext(packet.ID(n)), Incoming: session.NewPacketStore(), Outgoing: session.NewPacketStore()}
+		_ = ms.Reset()
+		if id := ms.NextID(); id != 1 {
+			c.Emit("direct counter_window reset session start=%d FAIL first id after MemorySession.Reset is %d, want 1", n, id)
+		}
+	}
+	c.Stat("constructed_stores", len(lists))
+}
+
 func runC18(c *hx.Ctx) {
 	if c.Replay != "" {
 		c18Replay(c)
@@ -235,6 +332,7 @@ func runC18(c *hx.Ctx) {
 		c18SessionWindow(c, w, k)
 	}
 	c.Stat("direct_windows", 6)
+	c18Constructed(c)
 	// T-exh: every one of the 65536 counter states
 	for s := 0; s < 65536; s++ {
 		ctr := session.NewIDCounterWithNext(packet.ID(s))
